@@ -93,7 +93,11 @@ class Enumerator(object):
                 path.effects.append(s)
         return t
 
-    def add_pat_cond(self, path, vterm, pred, names):
+    def add_pat_cond(self, path, vterm, pred, names, ty=None):
+        if names and ty is not None:
+            info = canon.variants_of(ty)
+            if info is not None and set(names) == set(x[0] for x in info[1]):
+                return  # every variant: the arm tests nothing
         cc = canon.cmp_conds(vterm, names) if names else None
         if cc is not None:
             path.conds = canon.simplify(path.conds + cc)
@@ -101,6 +105,17 @@ class Enumerator(object):
             if canon.contradictory(path.conds + [(S.show(vterm), pred)]):
                 path.done = 'infeasible'  # the same value was already found not to match: nothing runs on this path
             path.conds = canon.simplify(path.conds + [(S.show(vterm), pred)])
+
+    @staticmethod
+    def bool_contradiction(conds, lits):
+        """the same boolean subject with both polarities: an infeasible combination"""
+        seen = {}
+        for s_, p_ in list(conds) + list(lits):
+            if isinstance(p_, bool):
+                if seen.get(s_, p_) != p_:
+                    return True
+                seen[s_] = p_
+        return False
 
     def needs_paths(self, e):
         """the expression branches (itself, or through a helper that is read through), so it is walked path by path"""
@@ -201,7 +216,7 @@ class Enumerator(object):
         if k == 'Block':
             return self.block(node, path)
         if k == 'Match':
-            node = H.nest_result_match(node)
+            node = H.nest_tuple_match(H.nest_result_match(node))
         if (k == 'Match' and S.is_propagate_match(node) and not any(self.has_ctl(a['body']) for a in node['arms'] if not self.ev.block_diverges(a['body']))
                 and not self.has_ctl(node['scrut'])) or (k == 'If' and S.is_propagate_iflet(node) and not self.has_ctl(node['cond']['init'])):
             # the explicit spelling of `?`: one path, read like the operator form
@@ -257,20 +272,24 @@ class Enumerator(object):
                     if a_ is not None and b_ is not None and a_[0] in ('path', 'lit') and b_[0] in ('path', 'lit') and (a_[0] == 'lit' or canon.is_variant_path(a_)) and (b_[0] == 'lit' or canon.is_variant_path(b_)):
                         known = 'true' if ((a_ == b_) == (p.value[1] == '==')) else 'false'
                 if known != 'false':
-                    tp = p.fork()
-                    if known is None:
-                        tp.conds = canon.simplify(tp.conds + canon.cond(p.value, True))
-                    out.extend(self.run(node['then'], tp))
+                    for lits in (canon.branches(p.value, True) if known is None else [[]]):
+                        tp = p.fork()
+                        if canon.contradictory(tp.conds + lits) or self.bool_contradiction(tp.conds, lits):
+                            continue
+                        tp.conds = canon.simplify(tp.conds + lits)
+                        out.extend(self.run(node['then'], tp))
                 if known == 'true':
                     continue  # the condition was decided by the path itself (e.g. `matches!`): no else on this path
-                ep = p.fork()
-                if known is None:
-                    ep.conds = canon.simplify(ep.conds + canon.cond(p.value, False))
-                if node.get('else') is not None:
-                    out.extend(self.run(node['else'], ep))
-                else:
-                    ep.value = ('unit',)
-                    out.append(ep)
+                for lits in (canon.branches(p.value, False) if known is None else [[]]):
+                    ep = p.fork()
+                    if canon.contradictory(ep.conds + lits) or self.bool_contradiction(ep.conds, lits):
+                        continue
+                    ep.conds = canon.simplify(ep.conds + lits)
+                    if node.get('else') is not None:
+                        out.extend(self.run(node['else'], ep))
+                    else:
+                        ep.value = ('unit',)
+                        out.append(ep)
             return out
         if k == 'Match' and node.get('src') == 'Normal':
             out = []
@@ -312,32 +331,52 @@ class Enumerator(object):
                     w = canon.whole(a['pat'], ty)
                     # first-match semantics against earlier *guarded* arms: for the variants such an arm also
                     # covers, this arm runs only if that guard failed; for the others the guard was never asked
-                    cells = [(pred, names, [])]
+                    cells = [(pred, names, [], [])]
                     catch_all = w == 'ALL'
                     seen_g = []
                     for ga, gw, gpred in guarded:
                         nxt = []
-                        for cpred, cnames, gs in cells:
+                        gn = canon.nested(ga['pat'])
+                        for cpred, cnames, gs, ex in cells:
                             gset = allv if gw == 'ALL' else gw
                             if cnames is not None and gset is not None and allv is not None:
                                 inside, outside = cnames & gset, cnames - gset
                                 if inside:
-                                    nxt.append((canon.render(ty, inside), inside, gs + [ga]))
+                                    nxt.append((canon.render(ty, inside), inside, gs + [ga], ex))
                                 if outside:
-                                    nxt.append((canon.render(ty, outside), outside, gs))
+                                    nxt.append((canon.render(ty, outside), outside, gs, ex))
+                            elif cnames is not None and allv is not None and gw is None and gn is not None and gn[1] in cnames and not any(e_[0] == gn[1] for e_ in ex):
+                                # the guarded arm looked inside variant V: `V(P) if g`. A later arm that takes V runs for V(P) only if g
+                                # failed, for V(not P) unconditionally; its other variants were never asked
+                                en_, vn_, sub_ = gn
+                                sen_ = canon.variant_of_pat(sub_)
+                                sty_ = sen_[0] if sen_ else None
+                                spred_, snames_ = canon.pattern_pred(sub_, sty_, [])
+                                info_ = canon.variants_of(sty_) if sty_ else None
+                                if snames_ is not None and info_ is not None:
+                                    rest_ = set(x[0] for x in info_[1]) - set(snames_)
+                                    npred_, nnames_ = (canon.render(sty_, rest_), rest_) if rest_ else (None, None)
+                                else:
+                                    npred_, nnames_ = 'not ' + spred_, None
+                                nxt.append((canon.render(ty, {vn_}), {vn_}, gs + [ga], ex + [(vn_, spred_, snames_)]))
+                                if npred_ is not None:
+                                    nxt.append((canon.render(ty, {vn_}), {vn_}, gs, ex + [(vn_, npred_, nnames_)]))
+                                others_ = cnames - {vn_}
+                                if others_:
+                                    nxt.append((canon.render(ty, others_), others_, gs, ex))
                             elif catch_all and cnames is None and (cpred == '_' or cpred.startswith('not ')) and gpred != '_':
                                 # variants unknown: what the guarded arm's pattern covers (its guard failed) / everything else
-                                nxt.append((gpred, None, gs + [ga]))
+                                nxt.append((gpred, None, gs + [ga], ex))
                                 rest = [q for q in earlier_preds + seen_g + [gpred]]
-                                nxt.append(('not ' + ' | '.join(dict.fromkeys(rest)), None, gs))
+                                nxt.append(('not ' + ' | '.join(dict.fromkeys(rest)), None, gs, ex))
                             elif cnames is None and cpred != gpred and not catch_all and gpred != '_' and gw != 'ALL' and gw is not None and w is not None and w != 'ALL' and not (gw & w):
-                                nxt.append((cpred, cnames, gs))
+                                nxt.append((cpred, cnames, gs, ex))
                             else:
-                                nxt.append((cpred, cnames, gs + [ga]))
+                                nxt.append((cpred, cnames, gs + [ga], ex))
                         cells = nxt
                         seen_g.append(gpred)
                     nst = canon.nested(a['pat']) if a.get('guard') is None or True else None
-                    for cpred, cnames, gs in cells:
+                    for cpred, cnames, gs, ex in cells:
                         ap = p.fork()
                         if nst is not None and cnames is None and not cpred.startswith('not ') and cpred != '_':
                             # `V(P)`: the variant test, then the test of its field (same conditions as a nested match)
@@ -352,7 +391,9 @@ class Enumerator(object):
                             if a.get('guard') is None:
                                 nested_seen.setdefault(vn, []).append((spred, snames, sty))
                         else:
-                            self.add_pat_cond(ap, v, cpred, cnames)
+                            self.add_pat_cond(ap, v, cpred, cnames, ty)
+                            for vn_, xp_, xn_ in ex:
+                                self.add_pat_cond(ap, ('field', v, '%s.0' % vn_), xp_, xn_)
                             # a whole-variant (or catch-all) arm behind arms that looked inside that variant's field
                             for vn, subs in nested_seen.items():
                                 covers = (cnames is not None and vn in cnames and len(cnames) == 1)
@@ -509,6 +550,25 @@ class Enumerator(object):
         ht = self.helper_target(node)
         if ht is not None:
             return self.inline_helper(node, ht[0], ht[1], path)
+        if k == 'Try' and H.peel(node['e']).get('k') == 'Local' and (H.peel(node['e']).get('ty') or '').lstrip('&').startswith('std::result::Result<'):
+            # `r?` on a Result that was computed earlier (a local): the call is not made here, so the two outcomes are two
+            # paths -- as they are when the same thing is written `match r { Ok(v) => v, Err(e) => return Err(e) }`
+            v = self.leaf(H.peel(node['e']), path)
+            if v is not None and v[0] not in ('var', 'try', 'ctl'):
+                out = []
+                okp = path.fork()
+                if not canon.contradictory(okp.conds + [(S.show(v), 'Ok(_)')]):
+                    self.add_pat_cond(okp, v, 'Ok(_)', {'Ok'})
+                    okp.value = ('field', v, 'Ok.0')
+                    out.append(okp)
+                erp = path.fork()
+                if not canon.contradictory(erp.conds + [(S.show(v), 'Err(_)')]):
+                    self.add_pat_cond(erp, v, 'Err(_)', {'Err'})
+                    erp.value = ('call', 'Err', (('field', v, 'Err.0'),), ())
+                    erp.done = 'return'
+                    out.append(erp)
+                if out:
+                    return out
         if k == 'Call' and (node.get('f') or {}).get('dk', '').startswith('Ctor') and len(node.get('args', [])) == 1 and self.needs_paths(node['args'][0]) \
                 and H.peel(node['args'][0]).get('k') in ('Call', 'MethodCall', 'Try'):
             # Ok(helper(..)) / Some(helper(..)?): the constructor wraps whatever each path of the helper yields
